@@ -29,11 +29,11 @@ func init() {
 }
 
 func runC12(c *engine.Ctx) {
-	r1 := c.Rule("R1", "stream handlers: deferred recover (reset + ReceiveError) installed before any decode; decode error (not EOF) resets, reports, and is never delivered", 3)
+	r1 := c.Rule("R1", "stream handlers: deferred recover (reset + ReceiveError) installed before any decode; decode error (not EOF) resets, reports, and is never delivered", 2)
 	r2 := c.Rule("R2", "decoded blocks are keyed by Prefix.Sum of their own bytes (error checked)", 1)
-	r3 := c.Rule("R3", "non-zero RequestIDs only from NewRequestID / checked ParseRequestID; decoder passes only checked ParseRequestID results to message constructors", 4)
-	r4a := c.Rule("R4a", "every dereference of an optional wire field in the decoder is dominated by its nil test", 8)
-	r4b := c.Rule("R4b", "wire-nullable interface values (request selector, extension payload) never reach an unguarded method call in module functions they are passed to", 4)
+	r3 := c.Rule("R3", "non-zero RequestIDs only from NewRequestID / checked ParseRequestID; decoder passes only checked ParseRequestID results to message constructors", 2)
+	r4a := c.Rule("R4a", "every dereference of an optional wire field in the decoder is dominated by its nil test", 4)
+	r4b := c.Rule("R4b", "wire-nullable interface values (request selector, extension payload) never reach an unguarded method call in module functions they are passed to", 2)
 
 	c12Handlers(c, r1)
 	checkHashBinding(c, r2)
